@@ -211,6 +211,8 @@ class _ShimSut(object):
 def run_C14(case):
     from .engine import Ctx, Result, Violation, Foreign, run_sequential
 
+    if case.get("big_store"):
+        return run_big_store(case)
     if case.get("query_after_close"):
         # the caller keeps using the object after close(): queries may fail, they may not write
         def final_closed(ctx):
@@ -311,5 +313,80 @@ def run_C14(case):
         res.violation = (v.clause, "crash state after write event %d/%d: %s" % (k, n, v.detail))
     except Foreign as f:
         res.foreign = (f.clause, f.detail)
+    res.digest = h.hexdigest()
+    return res
+
+
+def run_big_store(case):
+    """A trie store of more than 2^16 blocks, then the read-only requests whose cost or code path
+    depends on the size of the store; judged on bytes and write events only."""
+    import hashlib
+
+    from . import ops as O
+    from .engine import Result
+    from .twins import _rules
+    from traph.traph import TraphException
+
+    res = Result()
+    h = hashlib.sha256()
+    cfg = case["config"]
+    spec = case["big_store"]
+    default, rules = _rules(cfg)
+    sut = O.Sut(cfg["backend"], default, rules)
+    try:
+        t = sut.traph
+        n = spec["pages"]
+        body = b"b" * (74 * (spec["stem_blocks"] - 1) - 10)
+        # names in a scattered order, so that the sibling search tree stays shallow
+        lrus = [b"s:http|h:com|h:big|p:%05d%s|" % ((i * 40503 + 7) % 65537, body) for i in range(n)]
+        t.add_pages(lrus[: n // 2], crawled=True)
+        t.add_pages(lrus[n // 2 :], crawled=False)
+        if spec.get("links"):
+            t.add_links([(lrus[i], lrus[(i * 7 + 1) % n]) for i in range(spec["links"])])
+        a0, b0 = sut.stores()
+        blocks = len(a0) // 128
+        res.stats["big_store_trie_blocks"] = blocks
+        mark = len(sut.disk.log) if sut.disk is not None else 0
+        prefs = [b"s:http|h:com|h:big|"]
+        calls = [
+            ("count_pages", t.count_pages),
+            ("count_crawled_pages", t.count_crawled_pages),
+            ("count_links", t.count_links),
+            ("metrics", t.metrics),
+            ("count_pages (again)", t.count_pages),
+            ("pages_iter", lambda: sum(1 for _ in t.pages_iter())),
+            ("webentity_prefix_iter", lambda: list(t.webentity_prefix_iter())),
+            ("links_iter", lambda: sum(1 for _ in t.links_iter())),
+            ("get_webentity_pages", lambda: len(t.get_webentity_pages(1, prefs))),
+            ("paginate_webentity_pages", lambda: t.paginate_webentity_pages(1, prefs, page_count=5)),
+            ("get_webentities_links", lambda: t.get_webentities_links(include_auto=True)),
+            ("retrieve_webentity", lambda: t.retrieve_webentity(lrus[n // 3])),
+            ("get_page_links", lambda: t.get_page_links(lrus[1])),
+        ]
+        for name, f in calls:
+            try:
+                f()
+                outcome = "returned"
+            except TraphException:
+                outcome = "refused"
+            except Exception as e:
+                outcome = "raised_" + type(e).__name__
+            res.stats["queries"] += 1
+            res.stats["query_" + outcome] += 1
+            res.evals["C14.no_write_event"] += 1
+            if sut.disk is not None and len(sut.disk.log) != mark:
+                ev = sut.disk.log[mark:]
+                res.violation = ("C14.no_write_event", "%s (%s) on a store of %d trie blocks wrote: %s" % (name, outcome, blocks, short([(e[1], e[2], e[3]) for e in ev[:4]])))
+                break
+            a1, b1 = sut.stores()
+            res.evals["C14.bytes_unchanged"] += 1
+            if (a1, b1) != (a0, b0):
+                res.violation = ("C14.bytes_unchanged", "%s (%s) on a store of %d trie blocks changed the %s store" % (name, outcome, blocks, "trie" if a1 != a0 else "link"))
+                break
+        res.nontrivial = blocks > 65536
+        res.probes["store_beyond_2^16_trie_blocks"] += int(blocks > 65536)
+        h.update(repr((blocks, sorted(res.stats.items()))).encode())
+    finally:
+        sut.close()
     res.digest = h.hexdigest()
     return res
